@@ -49,6 +49,12 @@ var fixedNow = gotime.Date(2024, 2, 29, 12, 30, 45, 123456789, gotime.UTC)
 
 // transcript runs the program on the given thread (nil: fresh) and renders everything observable.
 func transcript(p gen.Program, thread *starlark.Thread, tr *host.Trace, shared starlark.StringDict) string {
+	return transcriptProg(p, thread, tr, shared, nil)
+}
+
+// transcriptProg: with prog != nil the module is not compiled again but initialised from that compiled program
+// (shared by all callers, as a host with a compilation cache does).
+func transcriptProg(p gen.Program, thread *starlark.Thread, tr *host.Trace, shared starlark.StringDict, prog *starlark.Program) string {
 	pre, th := host.Env(tr, "c03")
 	if shared == nil {
 		shared = buildShared()
@@ -77,7 +83,13 @@ func transcript(p gen.Program, thread *starlark.Thread, tr *host.Trace, shared s
 		return starlark.ExecFileOptions(p.Opts.FileOptions(), th2, module, src, pre2)
 	}
 	before := th.ExecutionSteps()
-	g, err := starlark.ExecFileOptions(p.Opts.FileOptions(), th, "prog.star", p.Src, pre)
+	var g starlark.StringDict
+	var err error
+	if prog != nil {
+		g, err = prog.Init(th, pre)
+	} else {
+		g, err = starlark.ExecFileOptions(p.Opts.FileOptions(), th, "prog.star", p.Src, pre)
+	}
 	var sb strings.Builder
 	for _, e := range tr.Events {
 		sb.WriteString(e)
@@ -276,6 +288,40 @@ func checkDeterminism(c Case) error {
 			return fmt.Errorf("concurrent run %d differs: %s", i, firstDiff(base, r))
 		}
 	}
+	// (3b) one compiled program, initialised concurrently by several threads (lazily decoded tables are shared)
+	preNames, _ := host.Env(&host.Trace{}, "names")
+	isPre := func(name string) bool {
+		if _, ok := sh[name]; ok {
+			return true
+		}
+		switch name {
+		case "time", "json", "math", "struct", "module", "attempt":
+			return true
+		}
+		return preNames.Has(name)
+	}
+	if _, prog, perr := starlark.SourceProgramOptions(p.Opts.FileOptions(), "prog.star", p.Src, isPre); perr == nil {
+		var wg2 sync.WaitGroup
+		start2 := make(chan struct{})
+		for i := 0; i < N; i++ {
+			wg2.Add(1)
+			go func(i int) {
+				defer wg2.Done()
+				<-start2
+				res[i] = transcriptProg(p, nil, &host.Trace{Limit: 4000}, sh, prog)
+			}(i)
+		}
+		close(start2)
+		wg2.Wait()
+		for i, r := range res {
+			if r != base {
+				return fmt.Errorf("concurrent initialisation %d of one compiled program differs: %s", i, firstDiff(base, r))
+			}
+		}
+		vk.S.Class("shared-program-leg")
+	} else {
+		return fmt.Errorf("SourceProgram rejects what ExecFile accepted: %v", perr)
+	}
 	// (4) other processes
 	if useProcs {
 		workersMu.Lock()
@@ -410,7 +456,7 @@ func sharedSection(t *rapid.T) string {
 	line("def sh_main():")
 	n := 4 + vk.Uniform(t, 9)
 	for i := 0; i < n; i++ {
-		switch vk.Uniform(t, 9) {
+		switch vk.Uniform(t, 10) {
 		case 0:
 			op := pick("+", "-", "*", "//", "%%", "&", "|", "^", "<", "<=", "==", "!=", ">", ">=")
 			line("    t(\"sh\", %s "+op+" %s)", num(), num())
@@ -438,7 +484,7 @@ func sharedSection(t *rapid.T) string {
 				"SH_STR.upper() + SH_STR[3:7]", "SH_BYTES[2:5]", "list(SH_DICT.items())[:3]", "max(SH_LIST) - min(SH_LIST)", "SH_LIST.index(7)",
 				"SH_FLOAT * 3 - 1", "SH_RANGE[5:50:3]", "list(zip(SH_LIST, SH_TUP))", "sorted(SH_DICT)[:3]", "SH_DICT.get(\"s2\")"))
 		case 5:
-			line("    " + pick("for e%d in SH_LIST: pass", "c%d = len([e for e in SH_DICT])", "for k%d, v in SH_DICT.items(): pass", "for e%d in SH_SET: pass",
+			line("    "+pick("for e%d in SH_LIST: pass", "c%d = len([e for e in SH_DICT])", "for k%d, v in SH_DICT.items(): pass", "for e%d in SH_SET: pass",
 				"c%d = len([c for c in SH_RANGE])", "for e%d in SH_NEST: pass", "c%d = len([e for e in SH_TUP if e])"), i)
 		case 6:
 			line("    t(\"sh\", attempt(%s))", pick("lambda: SH_LIST.append(1)", "lambda: SH_LIST.extend([1])", "lambda: SH_LIST.insert(0, 1)", "lambda: SH_LIST.pop()",
@@ -451,6 +497,13 @@ func sharedSection(t *rapid.T) string {
 			line("        " + pick("SH_LIST[0] = 1", "SH_DICT[\"s2\"] = 1", "SH_DICT[\"new\"] = 1", "l = SH_LIST\n        l += [1]", "d = SH_DICT\n        d |= {\"n\": 1}",
 				"s = SH_SET\n        s |= SH_SET", "SH_NEST[0][0] = 1", "SH_LIST[3] += 1", "SH_DICT[\"s2\"] += [1]"))
 			line("    t(\"sh\", attempt(m%d))", i)
+		case 9:
+			// failures whose message carries a spelling suggestion chosen among several equally near candidates
+			line("    t(\"sh\", attempt(lambda: %s))", pick("SH_STR.xstrip()", "SH_LIST.apend(1)", "SH_LIST.inser(0, 1)", "SH_DICT.popx(1)", "SH_DICT.valuez()", "SH_SET.ad(1)",
+				"SH_STRUCT.bigg", "SH_STRUCT.x", "struct(total_a = 1, total_b = 2, total_d = 3).total_c", "struct(ab = 1, ac = 2, ad = 3).aa", "SH_BYTES.elem()",
+				"json.encod(1)", "json.decodee(\"1\")", "math.flor(1.5)", "math.cei(1.5)", "time.noww()", "sorted([], kee = 1)", "sorted([], revers = True)",
+				"\"\".join(sepp = 1)", "SH_STR.split(sepx = 1)", "dict(a = 1).get(1, defaul = 2)", "SH_STR.isalphx()", "SH_STR.lstripp()", "SH_STR.rfindx(\"a\")",
+				"getattr(SH_STR, \"formt\")", "getattr(SH_STRUCT, \"lx\")"))
 		case 8:
 			// mutation attempts alternating with iteration: under concurrency other threads are iterating the same values meanwhile
 			line("    for r%d in range(%d):", i, 5+vk.Uniform(t, 30))
